@@ -1,16 +1,64 @@
-"""range() stand-in: concrete ranges run as they are; symbolic ranges use the invariant rule."""
-from .core import SymNum, Unsupported, concrete_value, is_sym
+"""range() stand-in: concrete ranges run as they are; a range over a SYMBOLIC bound is executed
+with the classical loop-invariant rule inside CPython's own `for`:
+
+  first  __next__: prove Inv(0) (initiation); havoc the loop state; pick an arbitrary 0 <= j < n;
+                   assume Inv(j); run the real body once with that j
+  second __next__: prove Inv(j+1) (preservation); havoc; assume Inv(n); StopIteration
+
+Invariants live in the sidecar contract (`loop_invariant`), phrased over the accumulator arrays."""
+from . import spec as S
+from .arr import SymArr, havoc_array
+from .core import SymNum, Unsupported, and_, concrete_value, ctx, is_sym
 
 _builtin_range = range
 
-LOOP_HANDLER = [None]
+LOOP_SPEC = [None]  # set by the harness: object with .state(args)->list of SymArr and .invariant(j)->formula
 
 
 def sym_range(*args):
     vals = [concrete_value(a) if is_sym(a) else a for a in args]
     if all(v is not None for v in vals):
         return _builtin_range(*[int(v) for v in vals])
-    h = LOOP_HANDLER[0]
-    if h is None:
+    spec = LOOP_SPEC[0]
+    if spec is None:
         raise Unsupported("loop over a symbolic range without a registered invariant")
-    return h(*args)
+    if len(args) != 1:
+        raise Unsupported("symbolic range with start/step")
+    return _InvariantLoop(args[0], spec)
+
+
+class _InvariantLoop:
+    def __init__(self, n, spec):
+        self.n, self.spec, self.stage = n, spec, 0
+        spec.loops_seen = getattr(spec, "loops_seen", 0) + 1
+        if spec.loops_seen > 1:
+            raise Unsupported("more than one symbolic loop in a function (one invariant supported)")
+
+    def __iter__(self):
+        return self
+
+    def _havoc(self):
+        for arr in self.spec.state():
+            fresh = havoc_array("loopstate", arr.storage.shape, arr.storage.kind)
+            arr.storage.fn = fresh.storage.fn
+
+    def __next__(self):
+        c = ctx()
+        label = self.spec.label
+        if self.stage == 0:
+            self.stage = 1
+            S.prove("%s:loop.invariant_initiation" % label, self.spec.invariant(0), kind="loop")
+            c.oblige("%s:loop.bound_nonnegative" % label, self.n >= 0, kind="loop")
+            self._havoc()
+            j = c.fresh("j", "int")
+            c.assume(and_(0 <= j, j < self.n))
+            S.assume(self.spec.invariant(j))
+            self.j = j
+            return j
+        if self.stage == 1:
+            self.stage = 2
+            S.prove("%s:loop.invariant_preservation" % label, self.spec.invariant(self.j + 1), kind="loop")
+            self._havoc()
+            S.assume(self.spec.invariant(self.n))
+            raise StopIteration
+        raise StopIteration
